@@ -250,7 +250,17 @@ func (p *Prog) drainCheck(c *Ctx, f *Func, src *types.Var, inline ast.Expr, pipe
 				if !ok || at.Kind != "nil" {
 					return false
 				}
-				cc, ok := ast.Unparen(at.X).(*ast.CallExpr)
+				x := ast.Unparen(at.X)
+				// `if err := scanner.Err(); err != nil`: follow the variable to its definition
+				if v, isV := identObj(info, x).(*types.Var); isV && !v.IsField() {
+					ast.Inspect(f.Body, func(y ast.Node) bool {
+						if as, isAs := y.(*ast.AssignStmt); isAs && len(as.Lhs) == 1 && len(as.Rhs) == 1 && identObj(info, as.Lhs[0]) == v {
+							x = ast.Unparen(as.Rhs[0])
+						}
+						return true
+					})
+				}
+				cc, ok := x.(*ast.CallExpr)
 				if !ok || p.CalleeName(f, cc) != "bufio.Scanner.Err" || !recvIs(info, cc, w) {
 					return false
 				}
